@@ -84,7 +84,7 @@ def run(chk):
         lf["grains models"] = [gm]
         lf["composition models"] = [{"model": "uniform", "compositions": [0]}]
         seed = rng.randrange(1, 1 << 30)
-        a = cs.add_world(wj, seed=seed, model=False)
+        a = cs.add_world(wj, seed=seed)          # modelled: SlabFeature.v with the mt19937 tape of this seed
         b = cs.add_world(wj, seed=seed, model=False)
         for qi in range(20):
             q, d = line_query(rng, wj, False, lf, spread=rng.choice([0.15, 0.3]))
